@@ -90,6 +90,19 @@ class SegEval:
         ch = attr_chain(node)
         if ch and ".".join(ch) in self.point_lists:
             return ".".join(ch)
+        # list(map(F, L)) / [F(p) for p in L] over a point list: the image list under F
+        inner = node
+        while isinstance(inner, ast.Call) and call_name(inner) in ("list", "tuple") and len(inner.args) == 1:
+            inner = inner.args[0]
+        if isinstance(inner, ast.Call) and call_name(inner) == "map" and len(inner.args) == 2:
+            b = self.base_key(inner.args[1])
+            if b is not None:
+                return "map(%s, %s)" % (ast.unparse(inner.args[0]), b)
+        if isinstance(inner, (ast.ListComp, ast.GeneratorExp)) and len(inner.generators) == 1 and not inner.generators[0].ifs and isinstance(inner.generators[0].target, ast.Name) \
+                and isinstance(inner.elt, ast.Call) and len(inner.elt.args) == 1 and isinstance(inner.elt.args[0], ast.Name) and inner.elt.args[0].id == inner.generators[0].target.id:
+            b = self.base_key(inner.generators[0].iter)
+            if b is not None:
+                return "map(%s, %s)" % (ast.unparse(inner.elt.func), b)
         return None
 
     def point(self, node):
